@@ -20,7 +20,7 @@ from .common import *
 EXPLANATION = ("Whole-crate scan of device-memory accesses classified by ring-type layout signature and pointer provenance: "
                "no load from the descriptor table / available ring exists; taint from used-ring loads and transport reads is "
                "propagated through the symbolic terms of every unsafe sink operand; leak/unleak sites are paired.")
-FLOORS = {'fns_scanned': {'*': 440, 'noalloc': 230}, 'used_ring_loads': 6, 'sinks': {'*': 16, 'noalloc': 12}, 'unleak_sites': {'*': 2, 'noalloc': 0}, 'pop_sites': {'*': 9, 'noalloc': 6}}
+FLOORS = {'fns_scanned': {'*': 440, 'noalloc': 230}, 'used_ring_loads': 6, 'sinks': {'*': 16, 'noalloc': 12}, 'unleak_sites': {'*': 2, 'noalloc': 0}, 'pop_sites': {'*': 9, 'noalloc': 4}}
 
 SINK_FNS = ('::get_unchecked', '::get_unchecked_mut', 'core::slice::from_raw_parts', 'core::slice::from_raw_parts_mut',
             'core::ptr::slice_from_raw_parts', 'core::ptr::slice_from_raw_parts_mut',
